@@ -17,7 +17,7 @@ ASSUMPTIONS = ["scheme candidates whose first character is a digit, '+', '-' or 
 
 DELIMS = ":/?#@[]\\"
 TOKENS = [":", "/", "//", "?", "#", "@", "[", "]", "\\", "[::1]", "[a:b]@", "[v1.x]@", "foo:////x", "mailto://///a", "data:////", "u@\uff45x.com", "\ufb01le.example:8080", "u:pw@cafe\u0301.example:99", "[::1]@", "u[:]p@", "//[a:b]@h:80", "[v1.x]", "[1.2.3.4]", "[fe80::1%25eth0]", "http", "HTTP", "hTTps", "ws", "file", "mailto", "a", "b1", "1", "+", "-", ".",
-          "80", ":80", ":0", ":", ":080", ":0080", ":00443", ":0443", ":021", ":000", "http://h:080", "https://u:p@[::1]:00443", " ", "\t", "\n", "\r", "\x00", "\x1f", "\x0b", "\xa0", "\u2003", "\u3000", "\x85", "\u2028", "\xe9:x", "\u0444ile:", "[v1.x]", "//[v1.x]/p", "[vF.a]:80", "%41", "%2f", "\xe9", "x-y.z", "://", "h.example", "H.Example", "u:p@", "u@", ":p@", "@@", "::", "?#", "#?", "..", "."]
+          "80", ":80", ":0", ":", ":080", ":0080", ":00443", ":0443", ":021", ":000", "http://h:080", "https://u:p@[::1]:00443", " ", "\t", "\n", "\r", "\x00", "\x1f", "\x0b", "\xa0", "\u2003", "\u3000", "\x85", "\u2028", "\xe9:x", "\u0444ile:", "[v1.x]", "//[v1.x]/p", "[vF.a]:80", "//[vAF.x:y]", "x://u:p@[vC0.a:b]:81/", "//[V1.x]", "//[::FFFF:1.2.3.4]", "//a%41:1", "//!$&'()*+,;=@!$&'()*+,;=", "%41", "%2f", "\xe9", "x-y.z", "://", "h.example", "H.Example", "u:p@", "u@", ":p@", "@@", "::", "?#", "#?", "..", "."]
 
 
 def dense():
@@ -80,6 +80,31 @@ def _harmless_authority(auth, scheme):
     return True
 
 
+_UNRES_SUB = r"A-Za-z0-9\-._~!$&'()*+,;="
+_WF_AUTH = re.compile(r"\A(?:(?P<ui>(?:[%s:]|%%[0-9A-Fa-f]{2})*)@)?(?:\[(?P<lit>[^\[\]@/?#]*)\]|(?P<reg>(?:[%s]|%%[0-9A-Fa-f]{2})+))(?::(?P<port>[0-9]*))?\Z" % (_UNRES_SUB, _UNRES_SUB))
+_IPVFUTURE = re.compile(r"\Av[0-9A-Fa-f]+\.[%s:]+\Z" % _UNRES_SUB)
+
+
+def _wellformed_ascii_authority(auth):
+    """RFC 3986 3.2 authority with a non-empty host: userinfo of unreserved/sub-delims/':'/escapes, a reg-name of the same characters or a
+    bracketed IPv6 address (as the ipaddress module accepts it, no zone) or IPvFuture literal, and an empty or 0-65535 decimal port.
+    Nothing in the statement (or the documentation) lets the parser reject such an input."""
+    m = _WF_AUTH.match(auth)
+    if not m:
+        return False
+    if m.group("port") and int(m.group("port")) > 65535:
+        return False
+    lit = m.group("lit")
+    if lit is not None:
+        if _IPVFUTURE.match(lit):
+            return True
+        try:
+            ipaddress.IPv6Address(lit)
+        except ValueError:
+            return False
+    return True
+
+
 def check_parse(ctx, backend, mode, s, order=0):
     Y = ctx.yarl(backend)
     R = ref.split(s)
@@ -100,6 +125,8 @@ def check_parse(ctx, backend, mode, s, order=0):
         ctx.case(nontrivial, label=mode + "/rejected", key=(mode, s))
         if mode == "enc" and (auth is None or (auth.isascii() and "[" not in auth and "]" not in auth)):
             ctx.check(False, "encoded=True rejected an input whose authority is ASCII and bracket-free", observed="ValueError", expected="accepted", entry=mode)
+        elif auth and auth.isascii() and _wellformed_ascii_authority(auth):
+            ctx.check(False, "an RFC 3986 well-formed ASCII authority (reg-name or valid IP literal, valid port) was rejected", observed=ex, expected="accepted", entry=mode + (":literal" if "[" in auth else ":reg-name"))
         elif auth and not auth.isascii() and "[" not in auth and "]" not in auth and _harmless_authority(auth, R["scheme"]):
             ctx.check(False, "an authority whose non-ASCII characters are harmless (no NFKC form with a delimiter, IDNA-encodable host, valid port) was rejected",
                       observed=ex, expected="accepted", entry=mode)
@@ -226,6 +253,26 @@ def generated(ctx, backend, mode, n):
     ctx.given("parse", {"s": gen.url_string(gen.text(max_tokens=4))}, max_examples=n // 3, fixed={"backend": backend, "mode": mode}, tag="grammar")
 
 
+M_SCHEMES = ["", "x", "http", "file", "HTTP", "svc+a"]
+M_AUTHS = [None, "", ":99", "u@", "u:pw@:7", "@", ":", ":@", "h", "h:80", "h:", "u@h", "u:@h:0", "[::1]", "[::1]:80", "[vA.x]", "[v1f.a:b]:81", "H.Example", "1.2.3.4", "h:65535", "h:000080", "h:0065535", "a%41b", "[fe80::1%25eth0]"]
+M_PATHS = ["", "/", "/p", "p", "//p", "/.", "/a/../b", "/a//", "p:q", "/%2e/x"]
+M_QUERIES = [None, "", "q=1"]
+M_FRAGS = [None, "", "f"]
+
+
+def matrix(ctx, backend):
+    """every combination of a small set of schemes, authorities (absent, empty, empty-host, userinfo, ports, IP literals), paths, queries
+    and fragments, both constructor modes, two accessor orders"""
+    import itertools
+    for sc, au, pa, qu, fr in itertools.product(M_SCHEMES, M_AUTHS, M_PATHS, M_QUERIES, M_FRAGS):
+        if au is not None and pa and not pa.startswith("/"):
+            continue
+        text = (sc + ":" if sc else "") + ("//" + au if au is not None else "") + pa + ("?" + qu if qu is not None else "") + ("#" + fr if fr is not None else "")
+        for mode in ("enc", "auto"):
+            for order in (0, 2):
+                ctx.run("parse", backend=backend, mode=mode, s=text, order=order)
+
+
 def fuzz_campaign(ctx, runs):
     """coverage-guided tier (atheris/libFuzzer): oracle inside the target, empty and seeded corpus; a failure is re-run through the ordinary case checker"""
     from .. import fuzz
@@ -240,5 +287,7 @@ def shards(tier, seed):
         for mode in ("enc", "auto"):
             for i in range(k):
                 out.append({"name": "%s-%s-%d" % (mode, b, i), "fn": "generated", "kw": {"backend": b, "mode": mode, "n": n}})
+    for b in ("py", "c"):
+        out.append({"name": "matrix-" + b, "fn": "matrix", "kw": {"backend": b}})
     out.append({"name": "fuzz", "fn": "fuzz_campaign", "kw": {"runs": 100000 if tier == "quick" else 5000000}})
     return out
